@@ -3,7 +3,7 @@
     cds/intrusive/impl/feldman_hashset.h + details/feldman_hashset_base.h by step correspondence, checks/C14.py). *)
 From Coq Require Import ZArith NArith List String.
 From LV Require Import Base.Conc Base.Events Base.Lin Spec.Specs Model.Feldman Proofs.FeldmanStepInv Proofs.FeldmanStepSafe Proofs.FeldmanStepThm.
-From LV Require Import Model.SplitList Proofs.SplitListInv Proofs.PartitionLin.
+From LV Require Import Model.SplitList Proofs.SplitListInv Proofs.PartitionLin Proofs.FeldmanLinInv Proofs.FeldmanLinSafe.
 Import ListNotations.
 
 (** [data_at g a i p]: item p sits in slot i of array node a, reachable from the head array (a slot in the "converting"
@@ -84,6 +84,46 @@ Proof.
   - vm_compute. reflexivity.
 Qed.
 
+
+(** FULL linearizability of the FeldmanHashSet<HP> model, reads included.  [FeldmanLinInv.full_hist hs tr] is the complete
+    invoke/response history of the trace over the sequential set of HASH VALUES (the container identifies an item with its
+    hash): insert k -> SInsert (hash k), update k -> SUpdate (hash k) bInsert (result pair), erase k -> SErase (hash k),
+    contains k -> SContains (hash k).  For every head/array width > 0, every table of W-bit hashes, every client program and
+    EVERY schedule, the history of every reachable configuration is the history of an LP-annotated trace valid for SetSpec,
+    hence linearizable - while array nodes are being expanded.  Linearization points: the slot CAS of a successful insert /
+    inserting update / erase; a failed insert, an update of an existing item (the replacing CAS included), a failed erase, a
+    failed update without insert and contains linearize at the thread's own last observation of the slot on the path of
+    its hash (protect's load), Proofs/FeldmanLinInv.v. *)
+Theorem C14_feldman_linearizable_lp :
+  forall (hbits abits W : nat) (hs : list N), 0 < hbits -> 0 < abits ->
+  (forall k, (Feldman.hash hs k < 2 ^ N.of_nat W)%N) ->
+  forall (fuel : nat) (ths : list (list (list Z))) c,
+    Conc.reach (Feldman.init_cfg hbits abits W hs fuel ths) c ->
+    exists atr, lp_valid SetSpec atr /\ erase atr = FeldmanLinInv.full_hist hs (Conc.trace c).
+Proof. exact feldman_linearizable_lp. Qed.
+Print Assumptions C14_feldman_linearizable_lp.
+
+Theorem C14_feldman_linearizable :
+  forall (hbits abits W : nat) (hs : list N), 0 < hbits -> 0 < abits ->
+  (forall k, (Feldman.hash hs k < 2 ^ N.of_nat W)%N) ->
+  forall (fuel : nat) (ths : list (list (list Z))) c,
+    Conc.reach (Feldman.init_cfg hbits abits W hs fuel ths) c ->
+    linearizable SetSpec (FeldmanLinInv.full_hist hs (Conc.trace c)).
+Proof. exact feldman_linearizable. Qed.
+Print Assumptions C14_feldman_linearizable.
+
+(** non-vacuity: the history of the concrete run above has 8 events (4 completed operations, two of them overlapping) and the
+    hypotheses hold for its configuration (4-bit head, 2-bit array nodes, hashes below 2^32) *)
+Example C14_feldman_linearizable_nonvacuous :
+  let c := fst (Conc.run 2000 0 [0;1;0;1;1;0]%nat
+                 (Feldman.init_cfg 4 2 32 [5; 21; 37; 2]%N 50 [[[1;0];[1;2]]; [[1;1];[7;0]]]%Z)) in
+  List.length (FeldmanLinInv.full_hist [5; 21; 37; 2]%N (Conc.trace c)) = 8 /\
+  lincheck SetSpec (FeldmanLinInv.full_hist [5; 21; 37; 2]%N (Conc.trace c)) = true /\
+  (forall k, (Feldman.hash [5; 21; 37; 2]%N k < 2 ^ N.of_nat 32)%N).
+Proof.
+  cbv zeta. split; [vm_compute; reflexivity|]. split; [vm_compute; reflexivity|].
+  intros k. unfold Feldman.hash. do 4 (destruct k as [|k]; [vm_compute; reflexivity|]). destruct k; vm_compute; reflexivity.
+Qed.
 
 (** * Part 2: SplitListSet<HP, MichaelList> at step grain (LV.Model.SplitList, tied to cds/intrusive/split_list.h +
       details/split_list_base.h by step correspondence with load factor 1, 2 initial buckets, growth and concurrent bucket
